@@ -26,14 +26,14 @@ class SingleAssignmentDisposable(DisposableBase):
 
     def set_disposable(self, value: DisposableBase) -> None:
         with self.lock:
-            if self.current:
+            if self.current is not None:
                 raise Exception("Disposable has already been assigned")
 
             should_dispose = self.is_disposed
             if not should_dispose:
                 self.current = value
 
-        if should_dispose and value:
+        if should_dispose and value is not None:
             value.dispose()
 
     disposable = property(get_disposable, set_disposable)
